@@ -130,23 +130,26 @@ class _RemotePathMapper:
                 )
         return result
 
+    def _invalidate_node(
+        self, location: ExecutionLocation, node: _RemotePathNode
+    ) -> None:
+        # Invalidate node
+        for data_loc in node.locations.get(location.deployment, {}).get(
+            location.name, []
+        ):
+            data_loc.data_type = DataType.INVALID
+            node.valid_paths[location.deployment][location.name].discard(data_loc.path)
+        # Propagate to the whole subtree: the walk follows the tree, not the paths of the
+        # stored locations, so it always ends and it cannot skip a directory whose own
+        # locations were already invalidated through a related path
+        for node_child in node.children.values():
+            self._invalidate_node(location, node_child)
+
     def invalidate_location(self, location: ExecutionLocation, path: str) -> None:
         node = self._filesystem
         for token in Path(path).parts:
             node = node.children[token]
-        # Invalidate node
-        for data_loc in node.locations.get(location.deployment, {}).get(
-            location.name, set()
-        ):
-            data_loc.data_type = DataType.INVALID
-            node.valid_paths[location.deployment][location.name].discard(data_loc.path)
-        # Propagate
-        for node_child in node.children.values():
-            for data_loc in node_child.locations.get(location.deployment, {}).get(
-                location.name, set()
-            ):
-                if data_loc.data_type != DataType.INVALID:
-                    self.invalidate_location(data_loc.location, data_loc.path)
+        self._invalidate_node(location, node)
 
     def put(
         self, path: str, data_location: DataLocation, recursive: bool = False
@@ -184,7 +187,13 @@ class _RemotePathMapper:
             )
             if location.path in node.valid_paths.get(location.deployment, {}).get(
                 location.name, set()
+            ) and any(
+                loc.path == location.path and loc.data_type != DataType.INVALID
+                for loc in node.locations[location.deployment][location.name]
             ):
+                # A valid location for this path is already registered here. The
+                # `valid_paths` entry alone is not enough: a location shared with a
+                # related path may have been invalidated through another node
                 break
             else:
                 node.locations.setdefault(location.deployment, {}).setdefault(
